@@ -161,6 +161,7 @@ func SpawnTicker(d time.Duration, c chan time.Time) *TickerHandle {
 	}
 	g := call(request{kind: nSpawnTicker, d: d, obj: chanKey(c)})
 	h.t = g.t
+	call(request{kind: nLog, label: "ticker " + d.String()})
 	launch(g.t, func(first grant) {
 		g := first
 		for {
